@@ -70,7 +70,15 @@ def apply_model(op, arg, pos, n):
     return pos
 
 
+ASAN_EVERY = {"quick": 40, "thorough": 25}
+GROUPS = {"quick": [dict(name="asan", flavour="asan", workers=1)], "thorough": [dict(name="asan", flavour="asan", workers=3)]}
+
+
 def gen_cases(tier, seed):
+    return common.with_asan_slice(_gen_cases(tier, seed), ASAN_EVERY[tier])
+
+
+def _gen_cases(tier, seed):
     n = N_FRAMES
     i = 0
     if tier == "thorough":
